@@ -929,23 +929,75 @@ CHECKS = {"C01": c01, "C02": c02, "C03": c03, "C04": c04, "C05": c05, "C11": c11
 
 
 def replay(prop, path):
-    """Re-executes a replay file on the current tree."""
+    """Re-executes a replay file on the current tree: exit 1 if the recorded clause fails again, 0 if it no longer does."""
     with open(path) as handle:
         finding = json.load(handle)
     from harness import cf
-    if finding.get("engine", "cf") == "cf":
-        b = finding["binding"]
-        binding = cf.CFBinding(b["lp"], labelmap=b["labels"], unit=b["unit"], dtype=b["dtype"], seed=b["seed"],
-                               alpha=b["alpha"], tau=b["tau"], epsilon=b["epsilon"], n_jobs=b["n_jobs"],
-                               backend=b["backend"], container=b["container"])
+    engine = finding.get("engine", "cf")
+    b = finding.get("binding", {})
+    if engine in ("cf", "lin", "life") and finding.get("trace"):
+        if engine == "cf":
+            binding = cf.CFBinding(b["lp"], labelmap=b["labels"], unit=b["unit"], dtype=b["dtype"], seed=b["seed"],
+                                   alpha=b["alpha"], tau=b["tau"], epsilon=b["epsilon"], n_jobs=b["n_jobs"],
+                                   backend=b["backend"], container=b["container"])
+        elif engine == "lin":
+            from harness import lin
+            from fractions import Fraction
+            lam = Fraction(b["l2_lambda"])
+            binding = lin.LinBinding(reg=b["lp"][4:], alpha=b["alpha"], lam=(lam.numerator, lam.denominator), labelmap=b["labels"],
+                                     unit=b["unit"], seed=b["seed"], n_jobs=b["n_jobs"], backend=b["backend"],
+                                     container=b["container"], scale=b.get("scale", False), ctx_dtype=b.get("ctx_dtype", "float"))
+        else:
+            from harness import gen
+            binding = gen.GenBinding(lp=b["lp"], np_=b["np"], labelmap=b["labels"], seed=b["seed"], n_jobs=b["n_jobs"],
+                                     backend=b["backend"], data_seed=b["data_seed"], dims=b["dims"], bin_name=b["bin"],
+                                     epsilon=b["epsilon"], container=b["container"], perm_seed=b.get("perm_seed"),
+                                     shift=b.get("shift", 0), scale=b.get("scale", 1), preconv=b.get("preconv"),
+                                     addarm_bin=b.get("addarm_bin"))
         rep = cf.Replay(binding, feat=finding.get("consts", {}).get("Feat", {}))
         rep.run(finding["trace"])
-        hits = [f for f in rep.findings if f["clause"] == finding["clause"]]
         for f in rep.findings:
             print("  %s %s: %s" % (f["clause"], f["op"], f["detail"][:500]))
-        if hits:
+        if any(f["clause"] == finding["clause"] for f in rep.findings):
             print("VIOLATION property=%s replay=%s" % (prop, path))
             return 1
         print("replay of %s: clause %s no longer fails" % (path, finding["clause"]))
         return 0
-    raise Machinery("unknown engine in replay file")
+    if engine == "nb" and finding.get("path"):
+        from harness import nb
+        kw = {k: v for k, v in b.items()}
+        cfg = nb.NbConfig(kw.pop("np"), lp=kw["lp"], metric=kw["metric"], radius=tuple(kw["radius"]), k=kw["k"], n_tables=kw["n_tables"],
+                          n_dims=kw["n_dimensions"], n_clusters=kw["n_clusters"], minibatch=kw["minibatch"],
+                          tree_params=kw["tree_parameters"], labelmap=kw["labels"], unit=kw["unit"], dims=kw["dims"], seed=kw["seed"],
+                          n_jobs=kw["n_jobs"], backend=kw["backend"], init_bin=kw["bin"], alpha=kw["alpha"], tau=kw["tau"],
+                          epsilon=kw["epsilon"], no_nhood=kw["no_nhood"])
+        rec = nb.Recorder(cfg)
+        for call in finding["path"]:
+            if call["op"] in ("fit", "partial_fit"):
+                rec.train(call["op"], [(a, r, tuple(x)) for a, r, x in call["batch"]])
+            elif call["op"] == "add_arm":
+                rec.add_arm(call["arm"], call.get("bin", "keep"))
+            elif call["op"] == "remove_arm":
+                rec.remove_arm(call["arm"])
+            elif call["op"] == "query":
+                rec.query(tuple(call["q"]), real=call.get("real"))
+            elif call["op"] == "query_batch":
+                rec.query_batch([tuple(x) for x in call["rows"]])
+        result, done, fails, oracles = nb.validate(cfg, [rec])
+        clauses = [f["clause"] for f in rec.findings]
+        if 1 in fails:
+            clauses.append("trace." + fails[1][1])
+        clauses += [c for c, _, _ in nb.compare_queries(cfg, rec, 1, oracles)]
+        print("  clauses failing now: %s" % sorted(set(clauses)))
+        if finding["clause"] in clauses:
+            print("VIOLATION property=%s replay=%s" % (prop, path))
+            return 1
+        print("replay of %s: clause %s no longer fails" % (path, finding["clause"]))
+        return 0
+    # schedules, interleavings, simulator runs, cross-binding and test-suite findings are reproduced by re-running the
+    # check itself with the seed it was found with (all random choices derive from VERIF_SEED)
+    print("replay file %s (engine %s): re-running the %s check" % (path, engine, prop))
+    from harness import common
+    report = common.Report(prop, os.environ.get("VERIF_TIER") or "quick", int(os.environ.get("VERIF_SEED", "1") or 1))
+    CHECKS[prop](report)
+    return common.finish(report)
